@@ -228,7 +228,7 @@ def run(ctx):
             evs.append(e)
             own.append(("rnd", i, k - 1))
         ctx.nontrivial(json.dumps([c["text"], c["ops"]]))
-    already = {(v["kind"], json.dumps(v["case"]["text"]), json.dumps(v["case"]["ops"]), v.get("call_index")) for v in ctx.violations}
+    already = {(v["kind"], json.dumps(v["case"]["text"]), json.dumps(v["case"]["ops"]), v.get("call_index")) for v in ctx.seen}
     for bi in ctx.tlc_trace("config", "ConfigEdit_Trace", evs, timeout=3000):
         src, i, k = own[bi]
         if k < 0:
